@@ -2,6 +2,7 @@ package scen
 
 import (
 	"crypto/tls"
+	"crypto/x509"
 	"encoding/base64"
 	"encoding/pem"
 	"fmt"
@@ -76,6 +77,7 @@ type tagPlugin struct {
 }
 
 var staticTLS *tls.Config
+var staticLeaf *x509.Certificate
 var realCertB64 string
 
 func init() {
@@ -90,6 +92,7 @@ func init() {
 	}
 	staticTLS = &tls.Config{Certificates: []tls.Certificate{cert}, InsecureSkipVerify: true}
 	blk, _ := pem.Decode(certPEM)
+	staticLeaf, _ = x509.ParseCertificate(blk.Bytes)
 	realCertB64 = base64.RawStdEncoding.EncodeToString(blk.Bytes)
 }
 
